@@ -1732,7 +1732,7 @@ func rulePXTokenRender(c *Ctx, part string) []Obligation {
 			if part != "P-TOKEN" {
 				continue
 			}
-			ok := nreg == 1 && len(out) == 1 && out[0].Val != nil && out[0].Val.String() == regEv.Res.String() && len(regEv.Args) == 2 && regEv.Args[0].String() == "p0" && contentTerm(regEv.Args[1])
+			ok := nreg == 1 && len(out) == 1 && out[0].Val != nil && (out[0].Val.String() == regEv.Res.String() || out[0].Val.String() == regEv.Res.String()+"."+c.ff("defname")) && len(regEv.Args) == 2 && regEv.Args[0].String() == "p0" && contentTerm(regEv.Args[1])
 			t.note("a package token writes exactly what the registration function returns for its path", ok, "path %s writes %s after %d registrations", traceOf(p), segsString(out), nreg)
 		default:
 			if part != "P-TOKEN" {
@@ -2974,12 +2974,18 @@ func rulePXRegister(c *Ctx) []Obligation {
 		return "other", ""
 	}
 	for _, p := range paths {
-		if p.End != "return" || len(p.Ret) != 1 {
+		if p.End != "return" || len(p.Ret) < 1 {
 			t.note("registration returns a name on every path", false, "path %s ends in %s", traceOf(p), p.End)
 			continue
 		}
 		F := p.Facts
 		ret := p.Ret[0]
+		if ret.Typ != nil {
+			if _, isStruct := ret.Typ.Underlying().(*types.Struct); isStruct {
+				// the whole entry is returned: its name is what the caller writes
+				ret = fieldOfTerm(ret, nameF, types.Typ[types.String])
+			}
+		}
 		var stores []Ev
 		var lastValid *Ev
 		var rejected []string
